@@ -25,6 +25,7 @@ type proxy struct {
 	aofReqs    []aofReq // every `AOF pos` request seen, in order
 	stallUntil time.Time
 	downUntil  time.Time
+	stallEnded time.Time // latest moment at which a stall / outage ended or will end
 	link       linkProfile
 	maxStreams int // largest number of simultaneously open replication streams seen since ResetMaxStreams
 	killMD5    int // close the next n connections on which an AOFMD5 request arrives (before forwarding it)
@@ -40,6 +41,8 @@ type pconn struct {
 
 	aofAt     atomic.Int64 // unix nanos at which the AOF request went through (0 = not a replication stream)
 	delivered atomic.Int64 // bytes handed to the follower on this stream since the AOF request (includes the 5 bytes of +OK and forwarded PUBLISH frames)
+	lastMove  atomic.Int64 // unix nanos of the last moment a byte of this stream arrived from the leader or was handed to the follower
+	closedAt  atomic.Int64 // unix nanos at which the connection was closed (0 = open)
 	holdUntil atomic.Int64 // unix nanos until which nothing is delivered to the follower on this stream (delay in force when the request went through)
 }
 
@@ -104,6 +107,10 @@ func (p *proxy) acceptLoop() {
 		}
 		if tc, ok := b.(*net.TCPConn); ok {
 			tc.SetNoDelay(true)
+			// a small receive buffer: when the proxy holds or paces a stream the
+			// leader must feel it (its backlog copy blocks) instead of parking
+			// megabytes in socket buffers
+			tc.SetReadBuffer(8 * 1024)
 		}
 		pc := &pconn{a: a, b: b}
 		p.mu.Lock()
@@ -125,6 +132,7 @@ func (p *proxy) pipe(pc *pconn, src, dst net.Conn, fromFollower bool) {
 	defer p.wg.Done()
 	defer func() {
 		pc.close()
+		pc.closedAt.CompareAndSwap(0, time.Now().UnixNano())
 		p.mu.Lock()
 		delete(p.conns, pc)
 		p.mu.Unlock()
@@ -205,10 +213,12 @@ func (p *proxy) pipe(pc *pconn, src, dst net.Conn, fromFollower bool) {
 				}
 			}
 			if at := pc.aofAt.Load(); !fromFollower && at != 0 {
+				pc.lastMove.Store(time.Now().UnixNano())
 				if werr := p.pacedWrite(dst, buf[:n], time.Unix(0, pc.holdUntil.Load())); werr != nil {
 					return
 				}
 				pc.delivered.Add(int64(n))
+				pc.lastMove.Store(time.Now().UnixNano())
 			} else if _, werr := dst.Write(buf[:n]); werr != nil {
 				return
 			}
@@ -296,6 +306,9 @@ func (p *proxy) Stall(d time.Duration) {
 	if t := time.Now().Add(d); t.After(p.stallUntil) {
 		p.stallUntil = t
 	}
+	if p.stallUntil.After(p.stallEnded) {
+		p.stallEnded = p.stallUntil
+	}
 	p.mu.Unlock()
 }
 
@@ -304,6 +317,9 @@ func (p *proxy) Down(d time.Duration) {
 	p.mu.Lock()
 	if t := time.Now().Add(d); t.After(p.downUntil) {
 		p.downUntil = t
+	}
+	if p.downUntil.After(p.stallEnded) {
+		p.stallEnded = p.downUntil
 	}
 	p.mu.Unlock()
 	p.Cut()
@@ -314,6 +330,7 @@ func (p *proxy) Unstall() {
 	p.mu.Lock()
 	p.stallUntil = time.Time{}
 	p.downUntil = time.Time{}
+	p.stallEnded = time.Now()
 	p.mu.Unlock()
 }
 
@@ -370,6 +387,38 @@ func (p *proxy) LastStream() (pos, delivered int64, ok bool) {
 	}
 	r := p.aofReqs[len(p.aofReqs)-1]
 	return r.pos, r.pc.delivered.Load(), true
+}
+
+// StreamIdle describes the latest replication stream: whether it is still
+// open, and for how long nothing has moved on it (no byte arrived from the
+// leader, none is held back by the proxy, no stall or outage is in force).
+// While the proxy holds bytes of the stream the idle time is zero.
+func (p *proxy) StreamIdle() (open bool, idle time.Duration, ok bool) {
+	p.mu.Lock()
+	defer p.mu.Unlock()
+	if len(p.aofReqs) == 0 {
+		return false, 0, false
+	}
+	pc := p.aofReqs[len(p.aofReqs)-1].pc
+	now := time.Now()
+	if now.Before(p.stallUntil) || now.Before(p.downUntil) {
+		return pc.closedAt.Load() == 0, 0, true
+	}
+	last := pc.lastMove.Load()
+	if at := pc.aofAt.Load(); at > last {
+		last = at
+	}
+	if h := pc.holdUntil.Load(); h > last {
+		last = h
+	}
+	if su := p.stallEnded.UnixNano(); su > last {
+		last = su
+	}
+	idle = now.Sub(time.Unix(0, last))
+	if idle < 0 {
+		idle = 0
+	}
+	return pc.closedAt.Load() == 0, idle, true
 }
 
 // AllAOFReqs returns the resume positions of all requests.
